@@ -233,6 +233,12 @@ def setInst (s : Sys) (i : Nat) (x : Inst) : Sys := { s with insts := upd s.inst
 def dropOids (c : Nat → Option (Nat × Data)) (l : List Nat) : Nat → Option (Nat × Data) :=
   fun o => if l.contains o then none else c o
 
+/-- `self._cache.invalidate(invalidated)` of `newTransaction` (`none`: the whole cache) -/
+def applyInval (inval : Option (List Nat)) (c : Nat → Option (Nat × Data)) : Nat → Option (Nat × Data) :=
+  fun o => match inval with
+    | none => none
+    | some l => dropOids c l o
+
 def step (s : Sys) : Act → Res
   | .newInstance =>
     .ok { s with n := s.n + 1, insts := upd s.insts s.n { regAt := headTid (vlog s) } }
@@ -256,9 +262,7 @@ def step (s : Sys) : Act → Res
         let x := s.insts i
         .ok (setInst s i { x with
           start := max L x.ltid + 1, polled := none, inval := some [], live := true,
-          cache := match x.inval with
-                   | none => fun _ => none
-                   | some l => dropOids x.cache l })
+          cache := applyInval x.inval x.cache })
       | none => .blocked
     else .blocked
   | .read i oid =>
